@@ -282,13 +282,14 @@ fn apply(tree: &Tree, corr: &Corruption) -> Tree {
 
 pub fn run(ctx: &Ctx) -> i32 {
     let bounds = if ctx.thorough() {
-        Bounds { max_internal: 4, max_arity: 3, max_leaves: 6, chance_infosets: true, degenerate: true }
+        Bounds { max_internal: 4, max_arity: 2, max_leaves: 5, chance_infosets: true, degenerate: true }
     } else {
         Bounds { max_internal: 3, max_arity: 3, max_leaves: 5, chance_infosets: true, degenerate: true }
     };
     let shapes = raw_shapes(&bounds);
     ctx.set("universe", json!({"max_internal_nodes": bounds.max_internal, "max_arity": bounds.max_arity, "max_leaves": bounds.max_leaves, "raw_shapes": shapes.len()}));
-    let pair_limit_internal = if ctx.thorough() { 3 } else { 2 };
+    // (pairs of corruptions on shapes with three internal nodes do not finish within an hour)
+    let pair_limit_internal = 2;
     shapes.par_iter().for_each(|shape| {
         if ctx.stopped() {
             return;
